@@ -615,6 +615,9 @@ class Interp:
             return ("pymethod", obj, name)
         if isinstance(obj, _Gen) and name == "__next__":
             return ("pymethod", obj, name)
+        if type(obj) in (list, dict, str, bytes, int, float, bool):
+            # plain values of fully modelled built-in types: a name they do not have is Python's AttributeError
+            raise Raised("AttributeError", f"'{type(obj).__name__}' object has no attribute '{name}'")
         raise Uninterpretable(f"attribute {name} on {type(obj).__name__}")
 
     # ---- statements -------------------------------------------------------------------
@@ -1283,6 +1286,8 @@ class Interp:
                     return o[lo:hi:stp]
                 except TypeError as ex:
                     raise Raised("TypeError", str(ex))
+                except ValueError as ex:  # slice step cannot be zero
+                    raise Raised("ValueError", str(ex))
             k = self.eval(n.slice, env, func, depth)
             if isinstance(o, Obj):
                 m = self.method(o, "__getitem__")
@@ -1920,7 +1925,17 @@ class Interp:
             except Raised:
                 return False
         if name == "int":
-            return int(args[0])
+            if args and isinstance(args[0], Opaque):
+                raise Uninterpretable(f"int of {args[0]!r}")
+            if args and isinstance(args[0], EnumVal):
+                if self._is_intenum(args[0]):
+                    return int(args[0].value)
+            try:
+                return int(*args, **kwargs)
+            except ValueError as ex:
+                raise Raised("ValueError", str(ex))
+            except TypeError as ex:
+                raise Raised("TypeError", str(ex))
         if name in ("staticmethod", "classmethod") and len(args) == 1:
             # used as a function on a class-level value (e.g. `_key = staticmethod(attrgetter("start"))`): the wrapped callable
             return args[0]
